@@ -124,6 +124,87 @@ Section Res.
   Qed.
 End Res.
 
+(* ------------------------------------------------------------------ every lock in the store has a positive TTL *)
+Definition ttl_pos (ks : kstate) : Prop := forall l, ks_lock ks = Some l -> 0 < l_ttl l.
+
+Lemma rollback_key_lock ks s x : rollback_key ks s = KOk (Some x) -> ks_lock x = None \/ ks_lock x = ks_lock ks.
+Proof.
+  unfold rollback_key. destruct (own_lock ks s); [intros E; inversion E; left; reflexivity|].
+  destruct (find_start s (ks_writes ks)) as [w|]; [destruct (is_rollback w); discriminate|]. intros E; inversion E; right; reflexivity.
+Qed.
+Lemma resolve_key_lock s c k ks x : resolve_key s c k ks = Some x -> ks_lock x = None.
+Proof. unfold resolve_key. destruct (own_lock ks s); [|discriminate]. intros E; inversion E. destruct (0 <? c); reflexivity. Qed.
+
+Lemma kstep_ttl st c k x : ttl_cmd_ok c = true -> kstep st c k x -> ttl_pos (get_ks st k) -> ttl_pos x.
+Proof.
+  intros Hok H Hp l' El'. unfold ttl_pos in Hp.
+  destruct c; cbn [kstep ttl_cmd_ok] in *; cbv zeta in H; remember (get_ks st k) as kst eqn:Eks; clear Eks.
+  - (* Prewrite *)
+    apply N.ltb_lt in Hok. destruct H as [m [_ [_ H]]]. unfold prewrite_key in H.
+    destruct (ks_lock kst) as [l|] eqn:El.
+    + destruct (negb (l_start l =? start)); [discriminate|]. destruct (negb (is_pess l)); [discriminate|].
+      destruct (ccv _ false assert_on false (ks_writes kst)); [discriminate|]. inversion H; subst x. cbn [ks_lock] in El'.
+      inversion El'; subst l'. cbn [l_ttl]. destruct (ttl <? l_ttl l) eqn:E; [apply (Hp l eq_refl)|exact Hok].
+    + destruct (m_pess_check m); [discriminate|]. destruct (ccv _ false assert_on false (ks_writes kst)); [discriminate|].
+      inversion H; subst x. cbn [ks_lock] in El'. inversion El'; subst l'. exact Hok.
+  - (* PessLock *)
+    apply N.ltb_lt in Hok. destruct H as [ne [res [_ H]]]. unfold pess_lock_key in H.
+    destruct (p_lock_only_if_exists r && negb (p_return_values r)); [discriminate|].
+    assert (G : forall already, pess_lock_go kst r k ne already = inr (res, Some x) -> 0 < l_ttl l').
+    { intros already. unfold pess_lock_go. destruct (ccv _ true false (p_force r) (ks_writes kst)) as [e|v conflict]; [discriminate|].
+      cbv zeta. destruct (match conflict with Some (EWriteConflict _ _ cc _) => _ | Some e => _ | None => _ end) as [e|res0]; [discriminate|].
+      destruct (p_lock_only_if_exists r && negb match v with Some _ => true | None => false end); [discriminate|].
+      destruct (match already with None => true | Some l => l_for_update l <? p_for_update r end); [|discriminate].
+      intros E; inversion E; subst x. cbn [ks_lock] in El'. inversion El'; subst l'. exact Hok. }
+    destruct (ks_lock kst) as [l|]; [|eapply G; exact H].
+    destruct (negb (l_start l =? p_start r)); [discriminate|]. destruct (negb (is_pess l)); [discriminate|]. eapply G; exact H.
+  - unfold pess_rollback_key in H. destruct (pess_rollback_match kst start for_update); [|discriminate]. inversion H; subst x. discriminate.
+  - unfold commit_key in H. destruct (own_lock kst start) as [l|].
+    + destruct (commit <? l_min_commit l); [discriminate|]. inversion H; subst x. discriminate.
+    + destruct (find_start start (ks_writes kst)) as [w|]; [destruct (is_rollback w)|]; discriminate.
+  - destruct (rollback_key_lock _ _ _ H) as [E|E]; rewrite E in El'; [discriminate|apply Hp; exact El'].
+  - destruct H as [_ H]. unfold cleanup_key in H. destruct (own_lock kst start) as [l|].
+    + destruct ((current =? 0) || ttl_expired l current); [|discriminate]. inversion H; subst x. discriminate.
+    + destruct (rollback_key_lock _ _ _ H) as [E|E]; rewrite E in El'; [discriminate|apply Hp; exact El'].
+  - (* CheckTxnStatus *)
+    destruct H as [_ [r H]]. unfold check_txn_status_key in H. destruct (own_lock kst lock_ts) as [l|] eqn:Eo.
+    + apply own_lock_some in Eo. destruct Eo as [El _]. destruct (ttl_expired l current).
+      * destruct (resolving_pess && is_pess l).
+        -- inversion H as [[E1 E2]]. unfold pess_rollback_key in E1. destruct (pess_rollback_match kst (l_start l) (l_for_update l)); [|discriminate].
+           inversion E1; subst x. discriminate.
+        -- inversion H; subst x. discriminate.
+      * destruct (caller =? max_ts); [discriminate|]. destruct (0 <? l_min_commit l); [|discriminate].
+        destruct (l_min_commit l <? caller + 1); [|discriminate]. inversion H; subst x. cbn [ks_lock] in El'. inversion El'; subst l'.
+        cbn [l_ttl]. apply (Hp l El).
+    + destruct (find_start lock_ts (ks_writes kst)) as [w|]; [destruct (is_rollback w); discriminate|].
+      destruct rollback_if_not_exist; [|discriminate]. destruct resolving_pess; [discriminate|].
+      inversion H; subst x. unfold write_rollback in El'. cbn [ks_lock] in El'. apply Hp; exact El'.
+  - (* HeartBeat *)
+    destruct H as [Ek [r H]]. subst k0. unfold heartbeat_key in H. destruct (own_lock kst start) as [l|] eqn:Eo; [|discriminate].
+    apply own_lock_some in Eo. destruct Eo as [El _]. destruct (negb (l_primary l =? k)); [discriminate|].
+    destruct (N.ltb_spec (l_ttl l) advise); [|discriminate]. inversion H; subst x. cbn [ks_lock] in El'. inversion El'; subst l'.
+    cbn [l_ttl]. specialize (Hp l El). lia.
+  - destruct H as [_ H]. rewrite (resolve_key_lock _ _ _ _ _ H) in El'. discriminate.
+  - destruct H as [_ H]. unfold batch_resolve_key in H. destruct (ks_lock kst) as [l|]; [|discriminate].
+    destruct (assoc_ts (l_start l) infos); [|discriminate]. rewrite (resolve_key_lock _ _ _ _ _ H) in El'. discriminate.
+  - destruct H.
+  - destruct H as [_ H]. unfold gc_key in H. inversion H; subst x. cbn [ks_lock] in El'. apply Hp; exact El'.
+  - destruct H. - destruct H. - destruct H. - destruct H.
+  - destruct H.
+  - destruct H as [_ H]. subst x. discriminate.
+  - destruct H.
+Qed.
+
+Lemma run_ttl_pos : forall b st, keys_sorted st -> (forall k, ttl_pos (get_ks st k)) -> forallb ttl_cmd_ok b = true ->
+  forall k, ttl_pos (get_ks (run_from st b) k).
+Proof.
+  induction b as [|c r IH]; intros st Hs Hp Hok; cbn [run_from fold_left]; [exact Hp|].
+  cbn [forallb] in Hok. apply andb_true_iff in Hok. destruct Hok as [H1 H2].
+  destruct (step_inv ttl_pos st c Hs Hp) as [Hs' Hp'].
+  { intros k x Hk Hq. eapply kstep_ttl; eassumption. }
+  apply IH; assumption.
+Qed.
+
 (* ------------------------------------------------------------------ statements over command sequences *)
 (* (A) a cacheable answer is final: its record lies on the primary *)
 Lemma cacheable_final cmds k s caller cur rine rp d :
@@ -136,6 +217,16 @@ Proof.
   destruct (check_txn_status_key (get_ks (run cmds) k) k s caller cur rine rp) as [o r] eqn:E. cbn [fst snd] in *.
   pose proof (cts_determined_record _ HW _ _ _ _ _ _ _ _ _ _ (Hk k) Httl E Hd) as H.
   unfold record_is, writes_of. rewrite get_apply_opt by exact Hs. rewrite N.eqb_refl. destruct o; exact H.
+Qed.
+
+(* (A') the same from the sequence discipline "every lock is written with a positive TTL" *)
+Lemma cacheable_final_disc cmds k s caller cur rine rp d :
+  let c := CheckTxnStatus k s caller cur rine rp in
+  oracle_ts (cmds ++ [c]) = true -> ttl_discipline cmds = true ->
+  determined (snd (step (run cmds) c)) = Some d -> record_is (run (cmds ++ [c])) k s d = true.
+Proof.
+  intros c Ho Ht Hd. apply cacheable_final; [exact Ho| |exact Hd].
+  apply (run_ttl_pos cmds [] keys_sorted_nil); [intros k0 l El; discriminate|exact Ht].
 Qed.
 
 (* (B) the memoised answer stays the store's answer: whatever follows (no GC over the start ts, no destroyed range), a
